@@ -348,6 +348,14 @@ def self_test(run):
     import bisect
     hit = {bisect.bisect_right(starts, line) - 1 for line in rej}
     res = {}
+    if 0 in hit:
+        # the uncorrupted recording of the real code is itself not a behaviour of the spec: that is
+        # a verdict about the code (reported like any other rejected scenario), and the corrupted
+        # variants of a rejected trace say nothing
+        run.report({"why": "rejected", "scenario": "selftest-history"},
+                   {"scenario": sc, "code_emitted": rp, "explain": "the recorded execution of the fixed self-test "
+                    "history is rejected by Trace_Dedup (per-arrival explanation or declarative property at close)"})
+        return {"skipped": "the unchanged recording was rejected (reported as a violation)"}
     for k, (name, _fn, exp) in enumerate(variants):
         if (k in hit) != exp:
             raise core.ToolError(f"binding self-test: '{name}' was {'rejected' if k in hit else 'accepted'} by Trace_Dedup")
